@@ -533,6 +533,11 @@ def whitelist_tree_roots_ok(prog) -> bool:
             seeds = [n for n in ast.walk(st) if isinstance(n, ast.Assign) and isinstance(n.value, ast.Name) and n.value.id == "WHITELIST_TREE"]
             stores = [n for n in ast.walk(st) if isinstance(n, ast.Subscript) and isinstance(n.ctx, ast.Store)]
             if inner and seeds and stores:
+                # every entry is inserted: the outer loop has no way to skip one (`if name in ALIASES: continue`)
+                outer_skips = [n for n in ast.walk(st) if isinstance(n, (ast.Continue, ast.Break))]
+                guarded_seed = [n for n in st.body if isinstance(n, ast.If) and any(x in list(ast.walk(n)) for x in seeds)]
+                if outer_skips or guarded_seed:
+                    return False
                 # ... and the list is complete when the tree is built: nothing adds to / rebinds WHITELIST after the building loop
                 later = m.tree.body[m.tree.body.index(st) + 1:]
                 for s2 in later:
